@@ -79,9 +79,15 @@ func (s *Shard) GetMode() mode.Mode {
 }
 
 func (s *Shard) setModeStorage(m mode.Mode) error {
-	if s.info.Mode == m {
+	// The storage has no mode of its own and the shard's one can't be used
+	// here: it stays the same when any component fails to switch, while the
+	// storage may have been switched already.
+	if s.storageMode == m {
 		return nil
 	}
+
+	// Unknown until the switch is complete, so that it is always retried.
+	s.storageMode = mode.Disabled
 
 	err := s.blobStor.Close()
 	if err == nil {
@@ -92,6 +98,8 @@ func (s *Shard) setModeStorage(m mode.Mode) error {
 	if err != nil {
 		return fmt.Errorf("can't set storage mode (old=%s, new=%s): %w", s.info.Mode, m, err)
 	}
+
+	s.storageMode = m
 
 	return nil
 }
